@@ -919,8 +919,21 @@ def _merged_name_sites(fn: ast.AST) -> list[tuple[ast.Call, str, bool]]:
         if not (isinstance(name_arg, ast.Name) and name_arg.id in grown):
             continue
         explicit_here = any(k.arg == "end" for k in c.keywords)
-        later_explicit = any(isinstance(x, ast.Call) and isinstance(x.func, ast.Attribute) and x.func.attr == "update_positions" and any(k.arg == "end" for k in x.keywords) and x.lineno > c.lineno
-                             for x in ast.walk(fn))
+        # the statement `T = Identifier(...).update_positions(first)` and the statements that follow it in the same block
+        later_explicit = False
+        for blk in ast.walk(fn):
+            for fld in ("body", "orelse", "finalbody"):
+                seq = getattr(blk, fld, None)
+                if not isinstance(seq, list):
+                    continue
+                for i, st in enumerate(seq):
+                    if isinstance(st, ast.Assign) and st.value is c and len(st.targets) == 1 and isinstance(st.targets[0], ast.Name):
+                        tname = st.targets[0].id
+                        for later in seq[i + 1:]:
+                            for x in ast.walk(later):
+                                if isinstance(x, ast.Call) and isinstance(x.func, ast.Attribute) and x.func.attr == "update_positions" and norm(x.func.value) == tname \
+                                        and any(k.arg == "end" for k in x.keywords):
+                                    later_explicit = True
         out.append((c, name_arg.id, explicit_here or later_explicit))
     return out
 
